@@ -141,10 +141,16 @@ func (p *Pkt) scionLayer() (*slayers.SCION, error) {
 		s.FlowID = p.FlowID & 0xfffff
 	}
 	s.SrcIA, s.DstIA = p.SrcIA, p.DstIA
-	if err := s.SetSrcAddr(addr.HostIP(p.Src.Unmap())); err != nil {
+	// an IPv4-mapped IPv6 address stays what it is on the wire (a 16-byte host address); the library's setters
+	// would turn it into the IPv4 address
+	if p.Src.Is4In6() {
+		s.SrcAddrType, s.RawSrcAddr = slayers.T16Ip, p.Src.AsSlice()
+	} else if err := s.SetSrcAddr(addr.HostIP(p.Src)); err != nil {
 		return nil, err
 	}
-	if err := s.SetDstAddr(addr.HostIP(p.Dst.Unmap())); err != nil {
+	if p.Dst.Is4In6() {
+		s.DstAddrType, s.RawDstAddr = slayers.T16Ip, p.Dst.AsSlice()
+	} else if err := s.SetDstAddr(addr.HostIP(p.Dst)); err != nil {
 		return nil, err
 	}
 	s.Path = p.Path
